@@ -9,6 +9,7 @@ from .universe import Dimension, DimensionSet, FlodymArray
 import json
 import math
 
+INFLATE2 = 250007
 INFLATE = 60000        # filler items per dimension in the inflated run: two dimensions already exceed 2^31 entries
 _CACHE = {}
 
@@ -76,6 +77,10 @@ def run_history(vec):
     if not problems and hash(json.dumps(vec["hist"], sort_keys=True)) % 8 == 0:
         # the same history over LONG dimensions (tens of thousands of items; no array is allocated): sizes are exact integers
         problems = [f"[dimensions inflated by {INFLATE} items] " + p for p in run_history_in(vec, INFLATE)]
+    elif not problems and hash(json.dumps(vec["hist"], sort_keys=True)) % 3000 == 1:
+        # ... and over dimensions of about 250 000 items: a set of three describes more than 2^53 (and fewer than 2^63) entries -
+        # a total size that is exact as an integer but not as a float
+        problems = [f"[dimensions inflated by {INFLATE2} items] " + p for p in run_history_in(vec, INFLATE2)]
     return problems
 
 
